@@ -7,6 +7,7 @@ set of (action constructor) labels exercised, for coverage reporting.
 from __future__ import annotations
 
 TID = {"inference": 0, "training": 1}
+LAST_COV: list[str] = []     # (action @ program counter) pairs of the last followed trace
 KIND = {"setup": "setup", "teardown": "teardown", "on_paused": "pausedHook", "on_resumed": "resumedHook",
         "observe": "step", "step": "step", "affect": "step", "t_setup": "step", "train": "step",
         "t_teardown": "step", "sync": "step"}
@@ -153,8 +154,12 @@ def project(events: list[tuple], n_threads: int = 2) -> list[tuple[int, str]]:
 def follow(driver, events: list[tuple], max_attempts: int, n_threads: int = 2):
     """Replay through the Lean model. Returns (divergence | None, labels_used, n_actions)."""
     acts = project(events, n_threads)
-    lines = [f"proto reset {n_threads} {max_attempts}"] + ["proto act " + a for _, a in acts]
+    lines = [f"proto reset {n_threads} {max_attempts}"] + ["proto act " + a for _, a in acts] + ["proto cov"]
     replies = driver.batch(lines)
+    cov = replies.pop()
+    global LAST_COV
+    LAST_COV = [c.replace("Pamiq.Proto.", "").replace("BPc.", "").replace("CPc.", "").replace("CbKind.", "")
+                for c in cov.strip("[]").split(",") if c]
     labels = set()
     for (i, a), r in zip(acts, replies[1:]):
         if r != "ok":
